@@ -12,7 +12,7 @@
     [no_opts]   all options off.
     [alt_full]  the property as stated: a positional copy whose atoms - leaves,
         dict keys, set members - are altered in any aspect an enabled option
-        ignores ([altA]).  REFUTED for the faithful model (7 witnesses).
+        ignores ([altA]).  REFUTED for the faithful model (8 witnesses).
     [copy] / [alt]  the same with the three relations the code implements: what
         a leaf comparison ignores ([altL]: math_epsilon overrides
         significant_digits), what key cleaning identifies ([altK]), what the
@@ -113,6 +113,14 @@ Theorem C11_alt_excl_key_refuted :         (* exclude_types not applied to keys 
   exists a b, alt_full (Fexcl [TInt]) cdef a b /\ exists r, run cdef (Fexcl [TInt]) a b = Ok r /\ fst r <> [].
 Proof. exact alt_excl_key_refuted. Qed.
 Print Assumptions C11_alt_excl_key_refuted.
+
+Theorem C11_alt_excl_default_list_refuted : (* exclude_types in the default list mode, with difflib's opcodes for the pair *)
+  alt_full (Fexcl [TInt]) cdef (VList lw1) (VList lw2) /\
+  tiles (ops_w [] lw1 lw2) 0 0 (List.length lw1) (List.length lw2) = true /\
+  run_optF ud0 ops_w czip (Fexcl [TInt]) (VList lw1) (VList lw2) = Ok ([], []) /\
+  exists r, run_optF ud0 ops_w cdef (Fexcl [TInt]) (VList lw1) (VList lw2) = Ok r /\ fst r <> [].
+Proof. exact alt_excl_default_list_refuted. Qed.
+Print Assumptions C11_alt_excl_default_list_refuted.
 
 Theorem C11_alt_bytes_key_case_refuted :   (* ignore_string_case does not lower-case bytes keys *)
   exists a b, alt_full Fcase cdef a b /\ exists r, run cdef Fcase a b = Ok r /\ fst r <> [].
